@@ -23,6 +23,9 @@ pub struct Known {
     /// at most this many occupied ports in the recording
     #[serde(default)]
     pub ports_max: Option<usize>,
+    /// the recording stops inside its last frame (RecorderSpec.cut_last_frame > 0)
+    #[serde(default)]
+    pub cut_last_frame: Option<bool>,
     pub what: String,
 }
 
@@ -57,5 +60,6 @@ pub fn matches<'a>(known: &'a [Known], v: &Violation, spec: &ScenarioSpec) -> Op
             && k.version_min.map_or(true, |m| ver >= (m[0], m[1]))
             && k.version_max.map_or(true, |m| ver <= (m[0], m[1]))
             && k.ports_max.map_or(true, |n| spec.recorder.ports.len() <= n)
+            && k.cut_last_frame.map_or(true, |c| c == (spec.recorder.cut_last_frame > 0 && spec.recorder.end == crate::spec::EndKind::None))
     })
 }
